@@ -625,3 +625,30 @@ B('C04', 'eq_simplify reflexive case with the test the wrong way round', 'smt/ve
   "            if lhs.lhs != lhs.rhs and rhs == true:\n                return Thm(arg)\n            elif rhs == false and lhs.lhs.is_constant()", 'C04.M10', 'verit_eq_simplify')
 B('C18', 'connective_def compares one unpacked part twice and the other never', 'smt/veriT/verit_macro.py',
   "                if q1 == p1 and o1 == p2 and p2 == q2 and p1 == o2:", "                if q1 == p1 and o2 == p1 and p2 == q2 and p1 == o2:", 'C18.R11', 'ConnectiveDefMacro.eval')
+
+# ------------------------------------------------------------------------------------------- C17
+CONGC = 'prover/congc.py'
+B('C17', 'union without a proof-forest edge', CONGC,
+  "                # Update the proof forest.\n                self._add_edge_proof_forest(a, b, E)\n", "", 'C17.G1', 'forest-edge')
+B('C17', 'forest edge labelled with something else than the pending equation', CONGC,
+  "                self._add_edge_proof_forest(a, b, E)", "                self._add_edge_proof_forest(a, b, (EQ_CONST, a, b))", 'C17.G1', 'forest-edge')
+B('C17', 'forest edge points the wrong way', CONGC,
+  "        self.proof_forest[s1] = (s2, label)", "        self.proof_forest[s2] = (s1, label)", 'C17.G1', 'edge(s1 -> (s2, label))')
+B('C17', 'equations of the absorbed class that find no partner are dropped', CONGC,
+  "                        self.lookup[(rep_c1, rep_c2)] = eq\n                        self.use_list[rep_b].append(eq)", "                        self.lookup[(rep_c1, rep_c2)] = eq", 'C17.G2', '')
+B('C17', 'new application equation registered under one argument only', CONGC,
+  "                self.use_list[rep_a1].append((s, t))\n                self.use_list[rep_a2].append((s, t))", "                self.use_list[rep_a1].append((s, t))", 'C17.G2', 'both-arguments')
+B('C17', 'test compares the constants instead of their representatives', CONGC,
+  "        return self.rep[t1] == self.rep[t2]", "        return t1 == t2", 'C17.G3', 'representatives')
+B('C17', 'new constant gets no use list', CONGC,
+  "            self.use_list[s] = []\n", "", 'C17.G3', 'initialises-all-tables')
+B('C17', 'proof stored under the reversed pair', CONGC,
+  "            self.pts[(u1, u2)] = pt", "            self.pts[(u2, u1)] = pt", 'C17.G4', 'proof-key')
+B('C17', 'backward chain step passes the chain again', CONGC,
+  "                    pt = pt.transitive(eq_pt.symmetric())", "                    pt = pt.transitive(pt, eq_pt.symmetric())", 'C17.G4', 'chain-step(backward)')
+B('C17', 'backward chain step without symmetric', CONGC,
+  "                    pt = pt.transitive(eq_pt.symmetric())", "                    pt = pt.transitive(eq_pt)", 'C17.G4', 'both-directions')
+N('C17', 'test through local names', CONGC,
+  "        return self.rep[t1] == self.rep[t2]", "        return self.rep[t2] == self.rep[t1]")
+N('C17', 'forest edge added before the size comparison is undone', CONGC,
+  "                # Update the proof forest.\n                self._add_edge_proof_forest(a, b, E)\n", "                self._add_edge_proof_forest(a, b, E)\n")
